@@ -27,6 +27,8 @@ type C12Case struct {
 	// bytes delivered together with io.EOF, 2 one byte per Read, 3 one byte per Read and the last
 	// one together with io.EOF
 	Src int `json:",omitempty"`
+	// DictCap of the ReaderConfig (0 = default): the reader's own capacity must not matter
+	DictCap int `json:",omitempty"`
 }
 
 // modeSource is a deterministic io.Reader (not an io.ByteReader) with a fixed fragmentation.
@@ -83,6 +85,10 @@ func init() {
 	})
 }
 
+// c12Base is the size of the base menu, which is crossed completely; the extended entries behind it
+// are crossed with a reduced set of paddings.
+const c12Base = 8
+
 func c12Menu() []Stream {
 	text := baseText
 	var out []Stream
@@ -109,6 +115,17 @@ func c12Menu() []Stream {
 	// streams above: anything a reader keeps from one stream or block to the next must fit both
 	far := append(append([]byte(nil), randBytes(12, 5000)...), randBytes(12, 300)...)
 	add("lib-dict64k-dist5000", mustLibXZ(XZCfg{DictCap: 65536, Check: 1}, far), far)
+	// extended menu (indices >= c12Base): streams with uncompressed chunks next to compressed ones,
+	// with different dictionary sizes - what a reader keeps of its LZMA2 machinery from one stream
+	// to the next (dictionary, decoder, the reader of uncompressed chunks) must fit all of them
+	rnd := randBytes(13, 150)
+	add("lib-dict4k-raw", mustLibXZ(XZCfg{DictCap: 4096, Check: 1}, rnd), rnd)
+	g := ref.NewLZMA2Gen()
+	g.Add(ref.ChunkSpec{Kind: ref.CRawReset, Raw: randBytes(14, 5000)})
+	g.Add(ref.ChunkSpec{Kind: ref.CLZMAProps, Props: ref.Props{LC: 3, LP: 0, PB: 2}, Ops: []ref.Op{{Kind: ref.OpMatch, Len: 200, Dist: 5000}, {Kind: ref.OpLit, Byte: 'k'}, {Kind: ref.OpMatch, Len: 30, Dist: 4600}}})
+	g.Add(ref.ChunkSpec{Kind: ref.CRaw, Raw: randBytes(15, 40)})
+	g.Add(ref.ChunkSpec{Kind: ref.CEnd})
+	add("ref-dict64k-raw+far+raw", ref.EncodeXZStream(ref.CheckCRC64, []ref.XZBlockSpec{{LZMA2: g.Out, Plain: g.Plain, DictCode: 8}}), g.Plain)
 	return out
 }
 
@@ -173,12 +190,12 @@ func c12Case(r *core.Run, menu []Stream, p C12Case) {
 	}
 	cs := core.MkCase("C12", "concat", p)
 	want, wantErr := c12Expect(menu, p)
-	out, err, proto, pan := xzDecodeSrc(data, 0, p.Single, p.Src)
+	out, err, proto, pan := xzDecodeSrc(data, p.DictCap, p.Single, p.Src)
 	var names []string
 	for _, s := range p.Streams {
 		names = append(names, menu[s].Name)
 	}
-	desc := fmt.Sprintf("streams=%v lead=%d pads=%v trailing=%d single=%v poke=%v source-mode=%d", names, p.Lead, p.Pads, p.Trailing, p.Single, p.Poke, p.Src)
+	desc := fmt.Sprintf("streams=%v lead=%d pads=%v trailing=%d single=%v poke=%v source-mode=%d ReaderConfig.DictCap=%d", names, p.Lead, p.Pads, p.Trailing, p.Single, p.Poke, p.Src, p.DictCap)
 	cls := errClass(err)
 	// site: what distinguishes the layout
 	site := fmt.Sprintf("n=%d single=%v", len(p.Streams), p.Single)
@@ -259,9 +276,9 @@ func c12Case(r *core.Run, menu []Stream, p C12Case) {
 
 func runC12(r *core.Run) {
 	menu := c12Menu()
-	r.Rule = "all lists of 1..3 streams over a menu of 8 (library-, reference- and liblzma-written; empty with one empty block and without any block; 4 check types; multi-block; 4 KiB and 64 KiB dictionaries with a far match) x 4 source modes (bytes.Reader / last bytes with io.EOF / one byte per Read / both) x padding: lists <=2: every length 0..16 between and after; lists of 3: {0,4,8} plus one misaligned; leading padding 1..8; trailing non-zero bytes (lengths 1..11); a non-zero byte at every position of a 4/8/12-byte padding group; x SingleStream on/off; oracle = 20-line reference semantics. states/transitions = stream-list automaton (start/between/error/done); non-trivial = distinct (layout class, outcome class, bytes, expectation)"
+	r.Rule = "all lists of 1..3 streams over a base menu of 8 (plus two extended entries with uncompressed chunks and different dictionary sizes, crossed with aligned paddings; and ReaderConfig.DictCap in {default, 4096, 5000, 100000, 4 MiB}) (library-, reference- and liblzma-written; empty with one empty block and without any block; 4 check types; multi-block; 4 KiB and 64 KiB dictionaries with a far match) x 4 source modes (bytes.Reader / last bytes with io.EOF / one byte per Read / both) x padding: lists <=2: every length 0..16 between and after; lists of 3: {0,4,8} plus one misaligned; leading padding 1..8; trailing non-zero bytes (lengths 1..11); a non-zero byte at every position of a 4/8/12-byte padding group; x SingleStream on/off; oracle = 20-line reference semantics. states/transitions = stream-list automaton (start/between/error/done); non-trivial = distinct (layout class, outcome class, bytes, expectation)"
 	var cases []C12Case
-	n := len(menu)
+	n := c12Base // the base menu is crossed completely
 	maxPad := 16
 	for a := 0; a < n; a++ {
 		for pa := 0; pa <= maxPad; pa++ {
@@ -321,6 +338,39 @@ func runC12(r *core.Run) {
 						cases = append(cases, C12Case{Streams: []int{a, b, c}, Pads: p, Trailing: -1})
 					}
 				}
+			}
+		}
+	}
+	// the extended entries: every ordered pair and triple that contains one of them, aligned paddings
+	for a := c12Base; a < len(menu); a++ {
+		for b := 0; b < len(menu); b++ {
+			for _, pa := range []int{0, 4, 8} {
+				for _, pb := range []int{0, 4} {
+					cases = append(cases, C12Case{Streams: []int{a, b}, Pads: []int{pa, pb}, Trailing: -1}, C12Case{Streams: []int{b, a}, Pads: []int{pa, pb}, Trailing: -1})
+				}
+			}
+			for c := 0; c < len(menu); c++ {
+				for _, pa := range []int{0, 4} {
+					cases = append(cases, C12Case{Streams: []int{b, a, c}, Pads: []int{pa, 4 - pa, 0}, Trailing: -1}, C12Case{Streams: []int{a, b, c}, Pads: []int{0, pa, 4}, Trailing: -1}, C12Case{Streams: []int{b, c, a}, Pads: []int{pa, 0, 0}, Trailing: -1})
+				}
+			}
+		}
+		for _, single := range []bool{false, true} {
+			for _, pa := range []int{0, 1, 4} {
+				cases = append(cases, C12Case{Streams: []int{a}, Pads: []int{pa}, Trailing: -1, Single: single})
+			}
+		}
+	}
+	// the reader's own dictionary capacity (default, minimal, not representable, large) must not
+	// change anything, in particular not what SingleStream means
+	for _, dc := range []int{4096, 5000, 100000, 1 << 22} {
+		for a := 0; a < len(menu); a++ {
+			for _, single := range []bool{false, true} {
+				for _, pa := range []int{0, 1, 4, 8} {
+					cases = append(cases, C12Case{Streams: []int{a}, Pads: []int{pa}, Trailing: -1, Single: single, DictCap: dc})
+					cases = append(cases, C12Case{Streams: []int{a, (a + 1) % len(menu)}, Pads: []int{pa, 0}, Trailing: -1, Single: single, DictCap: dc})
+				}
+				cases = append(cases, C12Case{Streams: []int{a}, Pads: []int{0}, Trailing: 0xFD, TailLen: 1, Single: single, DictCap: dc})
 			}
 		}
 	}
